@@ -606,6 +606,12 @@ def sym_len(interp, st, v, node=None):
             return out
     if isinstance(v, _M().Rows):
         return sym_len(interp, st, v.src, node)
+    from .filt import FiltList, flen
+
+    if isinstance(v, FiltList):
+        n_ = flen(v)
+        st.assume(z3.And(n_ >= 0, n_ <= to_z3(sym_len(interp, st, v.src, node) if not hasattr(v.src, "n") else v.src.n)))
+        return n_
     if isinstance(v, Rec):
         f = interp.lib.find_method(interp, v.cls, "__len__", st)
         if f is not None:
@@ -713,6 +719,35 @@ def comprehension(interp, st, node, kind):
                 return [v for _, v in items]
             return GList(items)
         # symbolic-length source: pure map (no filter) -> lambda-defined list
+        if gen.ifs and kind in ("list", "gen") and isinstance(seq, (SymList, Grid, I.SymRange)):
+            # [x for x in src if cond(x)]: the filtered view of src with keep[k] = cond(src[k]); the element must be the item itself
+            from .filt import FiltList, RangeSrc
+
+            if isinstance(seq, I.SymRange):
+                if not (isinstance(seq.lo, int) and seq.lo == 0):
+                    raise Outside("filtered comprehension over a range not starting at 0", node)
+                fsrc = RangeSrc(seq.hi)
+            else:
+                fsrc = seq
+            n = sym_len(interp, st, seq, node)
+            k = z3.Int(V.fresh_name("k"))
+            st.guards.append(z3.And(k >= 0, k < to_z3(n)))
+            st.binders.append(k)
+            try:
+                x = sym_item(interp, st, seq, k, node)
+                interp.assign(gen.target, x, st)
+                g = True
+                for cond in gen.ifs:
+                    g = b_and(g, I.truthy_value(interp, st, interp.ev(cond, st)))
+                val = interp.ev(node.elt, st)
+            finally:
+                st.guards.pop()
+                st.binders.pop()
+            lv, lx = V.leaves_of(val), V.leaves_of(x)
+            same = len(lv) == len(lx) and all((a is b) or (is_sym(a) and is_sym(b) and a.eq(b)) or (not is_sym(a) and not is_sym(b) and a == b) for a, b in zip(lv, lx))
+            if not same:
+                raise Outside("filtered comprehension over a symbolic-length sequence whose element is not the item itself", node)
+            return FiltList(fsrc, z3.Lambda([k], z3.And(k >= 0, k < to_z3(n), to_z3(g))))
         if gen.ifs or kind in ("dict", "set"):
             spec = interp.ctx.registry.comprehension_spec(interp.ctx, node, st)
             if spec is not None:
